@@ -167,6 +167,8 @@ def judge(oracle, params, n, bits, memo, variant=0):
         exp = tm.segment(flags, mn, mx, ms, mode)
         if se != exp:
             msg = "delivered %r, greedy segmentation is %r" % (se, exp)
+        elif variant:
+            msg = _falsy_variant(params, flags, se, variant)
     elif oracle == "C08":
         if src.nones != 1:
             msg = "end of stream requested %d times" % src.nones
@@ -201,10 +203,44 @@ def judge(oracle, params, n, bits, memo, variant=0):
     return msg, bool(se), se
 
 
+def falsy_frames(flags, kind):
+    """Frames that are falsy / zero-length objects: an empty list, '', b'', 0, False are frames like any
+    other (only None means end of stream).  kind 3: distinct list objects ([] invalid, [i] valid);
+    kind 4: ints (0 invalid, 1 valid); kind 5: '' invalid / 'A' valid; kind 6: () valid / (0,) invalid (inverted)."""
+    if kind == 3:
+        return [[i] if v else [] for i, v in enumerate(flags)], bool
+    if kind == 4:
+        return [1 if v else 0 for v in flags], bool
+    if kind == 5:
+        return ["A" if v else "" for v in flags], bool
+    return [() if v else (0,) for v in flags], (lambda f: len(f) == 0)
+
+
+def _falsy_variant(params, flags, se, variant):
+    mn, mx, ms, im, is_, mode = params
+    frames, val = falsy_frames(flags, variant)
+    tok = _auditok()["ST"](val, mn, mx, ms, im, is_, mode)
+    src = Src(frames)
+    try:
+        got = tok.tokenize(src)
+    except Exception as exc:
+        return "falsy frames (kind %d): tokenizer raised %r" % (variant, exc)
+    if src.i != len(frames):
+        return "falsy frames (kind %d): only %d of %d frames were read" % (variant, src.i, len(frames))
+    for d, a, b in got:
+        if list(d) != frames[a : b + 1] or (variant == 3 and any(x is not frames[a + k] for k, x in enumerate(d))):
+            return "falsy frames (kind %d): token (%d,%d) holds %r, stream has %r" % (variant, a, b, d, frames[a : b + 1])
+    if [(a, b) for _, a, b in got] != se:
+        return "falsy frames (kind %d) give %r, tuple frames give %r" % (variant, [(a, b) for _, a, b in got], se)
+    return None
+
+
 def _c01_variant(params, flags, se, variant):
     """Other frame types / validator kinds must give the same exact slices."""
     L = _auditok()
     mn, mx, ms, im, is_, mode = params
+    if variant >= 3:
+        return _falsy_variant(params, flags, se, variant)
     if variant == 1:
         s = "".join("A" if v else "a" for v in flags)
         tok = L["ST"](L["Upper"](), mn, mx, ms, im, is_, mode)
@@ -245,7 +281,9 @@ def work_enum(task):
                 idx += 1
                 variant = 0
                 if oracle == "C01":
-                    variant = (idx % 3)  # 0: tuple frames only, 1: +string, 2: +PCM
+                    variant = (idx % 7)  # 0: tuple frames only, 1: +string, 2: +PCM, 3..6: +falsy / zero-length frames
+                elif oracle == "C04":
+                    variant = 3 + (idx % 4) if idx % 2 else 0
                 msg, nontrivial, se = judge(oracle, params, n, bits, memo, variant)
                 cov["evaluations"] += 1
                 cov["traces_validated_against_impl"] += 1
@@ -534,8 +572,11 @@ def replay(case):
             judge("C08", params, k, bits & ((1 << k) - 1), memo)
     msg, _, _ = judge(case["oracle"], params, n, bits, memo, variant=0)
     if msg is None and case["oracle"] == "C01":
-        for v in (1, 2):
+        for v in (1, 2, 3, 4, 5, 6):
             msg = msg or judge("C01", params, n, bits, None, variant=v)[0]
+    if msg is None and case["oracle"] == "C04":
+        for v in (3, 4, 5, 6):
+            msg = msg or judge("C04", params, n, bits, None, variant=v)[0]
     if msg is None and case["oracle"] == "C04":
         se = judge("C04", params, n, bits, None)[2]
         rt = tm.reftok_run(fl, params[0], params[1], params[2], params[5])
